@@ -85,6 +85,13 @@ func init() {
 func (c *context) RecvMsg() (*protocol.Message, error) {
 	s := c.s
 
+	tq := nilQ
+	s.Lock()
+	if c.recvExpire > 0 {
+		tq = time.After(c.recvExpire)
+	}
+	s.Unlock()
+
 	for {
 		s.Lock()
 		if c.closed {
@@ -92,17 +99,11 @@ func (c *context) RecvMsg() (*protocol.Message, error) {
 			return nil, protocol.ErrClosed
 		}
 		cq := c.closeQ
-		tq := nilQ
 		rq := s.recvQ
 		zq := s.sizeQ
-		expTime := c.recvExpire
 		c.backtrace = nil
 		c.recvPipe = nil
 		s.Unlock()
-
-		if expTime > 0 {
-			tq = time.After(expTime)
-		}
 
 		select {
 		case msg := <-rq:
